@@ -190,26 +190,38 @@ def parse_cbmc_json(text):
     return results, msgs, status
 
 
-def vin_from_trace(trace):
-    vals = {}
-    for s in trace:
-        if s.get("stepType") != "assignment":
-            continue
-        lhs = s.get("lhs", "")
-        if not lhs.startswith("vin."):
-            continue
-        v = s.get("value", {})
-        if "binary" not in v:
-            continue
-        name = lhs[4:]
+def _vin_put(vals, name, v):
+    """store a (possibly aggregate) trace value under flat (field, index) keys"""
+    if not isinstance(v, dict):
+        return
+    if "binary" in v:
         if "$pad" in name or "." in name:
-            continue
+            return
         m = _IDX.search(name)
         idx = -1
         if m:
             idx = int(m.group(1))
             name = name[:m.start()]
         vals[(name, idx)] = int(v["binary"], 2)
+    elif "elements" in v:
+        for e in v["elements"]:
+            _vin_put(vals, "%s[%d]" % (name, e.get("index", 0)), e.get("value"))
+    elif "members" in v:
+        for mbr in v["members"]:
+            nm = mbr.get("name", "")
+            _vin_put(vals, (name + "." + nm) if name else nm, mbr.get("value"))
+
+
+def vin_from_trace(trace):
+    vals = {}
+    for s in trace:
+        if s.get("stepType") != "assignment":
+            continue
+        lhs = s.get("lhs", "")
+        if lhs == "vin":
+            _vin_put(vals, "", s.get("value", {}))
+        elif lhs.startswith("vin."):
+            _vin_put(vals, lhs[4:], s.get("value", {}))
     return vals
 
 
@@ -499,6 +511,7 @@ def run_property(pid, tier, cases, meta, jobs=None):
     infos.sort(key=lambda i: i["case"])
     violations = []
     inconclusive = []
+    undecided = {}
     for info in infos:
         if info["status"] in ("error", "timeout"):
             inconclusive.append("%s: %s" % (info["case"], info.get("error", info["status"])[:500]))
@@ -514,6 +527,8 @@ def run_property(pid, tier, cases, meta, jobs=None):
                     else:
                         inconclusive.append("%s: solver-only UB report (not sanitizer-confirmable) %s at %s:%s" % (
                             info["case"], f["description"], f["file"], f["line"]))
+                elif f["kind"] == "undecided":
+                    undecided.setdefault(info["case"], []).append(f["description"])
                 elif f["kind"] == "unwind-bound":
                     inconclusive.append("%s: unwinding assertion failed (%s) - bound too small for the shaped input, "
                                         "not a verdict" % (info["case"], f["property"]))
@@ -523,6 +538,9 @@ def run_property(pid, tier, cases, meta, jobs=None):
                                                                                  f.get("native")))
             if info["vacuous"]:
                 inconclusive.append("%s: witness point(s) not reachable: %s" % (info["case"], info["vacuous"]))
+    for cname, descs in sorted(undecided.items()):
+        inconclusive.append("%s: %d obligation(s) left undecided by CBMC (status UNKNOWN/ERROR, e.g. behind a failed "
+                            "pointer check): %s ..." % (cname, len(descs), descs[0]))
     # known findings: replay witnesses
     kf_lines = []
     case_by_name = {c.name: c for c in meta.get("all_cases", cases)}
